@@ -327,7 +327,7 @@ def setup():
         vlib.build_harness(run)
         for f in sorted(os.listdir(vlib.SPEC)):
             if f.endswith('.tla'):
-                p = subprocess.run(['java', '-cp', vlib.JAR, 'tla2sany.SANY', f], cwd=vlib.SPEC, capture_output=True, text=True)
+                p = subprocess.run(['java', '-Djava.io.tmpdir=' + run.dir, '-cp', vlib.JAR, 'tla2sany.SANY', f], cwd=vlib.SPEC, capture_output=True, text=True)
                 if p.returncode != 0 or 'error' in p.stdout.lower().replace('errors: 0', ''):
                     if 'Semantic errors' in p.stdout or 'Parse Error' in p.stdout or p.returncode != 0:
                         print(p.stdout[-2000:])
